@@ -1064,3 +1064,19 @@ def or_(*xs):
 def is_sym(x):
     return isinstance(x, (SymInt, SymBool))
 
+
+
+def failed_sample(obs, n, extra=None):
+    """Up to n failed obligations of a unit for its report, chosen so that nothing is hidden by the cut: first one
+    representative of every distinct obligation name (names NOT tagged as a listed finding first), then the rest in
+    order.  The driver treats the failures beyond the sample as instances of what the sample shows, so every distinct
+    kind of failure must be in it."""
+    failed = [o for o in obs if o.status == "failed"]
+    failed.sort(key=lambda o: "@known:" in (o.name or ""))          # stable: untagged first
+    seen, first, rest = set(), [], []
+    for o in failed:
+        key = (o.name, (o.detail or "")[:60])
+        (rest if key in seen else first).append(o)
+        seen.add(key)
+    out = (first + rest)[:n]
+    return [(o.as_dict() | extra(o)) if extra else o.as_dict() for o in out]
